@@ -54,4 +54,5 @@ Safe(muts, k, rec) ==
   /\ rec.clockok                                           \* clocks usable and not behind anything stored
   /\ ClockFile(muts, k, "ok") = "ok"
   /\ (\E e \in DOMAIN rec.outcome : rec.outcome[e] = "pre") => rec.redo = "post"   \* repeating the call completes it
+  /\ rec.redo2 \in {"", "ok"}          \* ... also when the repeated call is interrupted in turn (old or new, then complete)
 =============================================================================
